@@ -340,7 +340,83 @@ U_ORDER = Unit(P + '/near-field-point-order', ['Mininec.compute_near_field', 'Mi
                canaries=[Canary('coordinate-rows-not-flipped-back', 'Mininec.compute_near_field', _NoFlip, [P + '/near-field point order/point-q']),
                          Canary('meshgrid-in-xy-indexing', 'Mininec.compute_near_field', _MeshXY, [P + '/near-field point order/'])])
 
-UNITS = [U_ANGLE, U_GRID, U_STRUCT, U_FFROWS, U_ORDER]
+
+
+# ---------------------------------------------------------------- far field: from the requested angles to the rows of the table
+def t_farfield_grid_to_rows(eng):
+    """The two statements of compute_far_field that lay out the result -- `zen_d, azi_d = np.meshgrid (...)` and
+    `self.far_field = Far_Field_Pattern (...)` -- then the real Far_Field_Pattern.__init__ and db_as_mininec, for
+    2 zenith x 3 azimuth angles (arbitrary values) and arbitrary per-direction results p123[iz][ia]:
+    exactly N_theta * N_phi rows; row number ia * N_theta + iz (azimuth outer, zenith inner) carries zenith angle iz,
+    azimuth angle ia and the three gains computed for THAT direction."""
+    n = P + '/far-field grid to rows/'
+    NZ, NA = 2, 3
+    g = eng.get_fnode('Mininec.compute_far_field')
+    st_grid = [st for st in g.body if isinstance(st, ast.Assign) and 'angle_deg' in ast.unparse(st.value) and 'meshgrid' in ast.unparse(st.value)]
+    st_pat = [st for st in g.body if isinstance(st, ast.Assign) and 'Far_Field_Pattern' in ast.unparse(st.value)]
+    if len(st_grid) != 1 or len(st_pat) != 1:
+        from pyvc.source import Unresolved
+        raise Unresolved('grid / pattern statements of compute_far_field')
+    zen_v = [fresh_real('zen%d' % k) for k in range(NZ)]
+    azi_v = [fresh_real('azi%d' % k) for k in range(NA)]
+    azi, zen = SObj('Angle', label='azi'), SObj('Angle', label='zen')
+    eng.summaries['Angle.angle_deg'] = lambda e, a, k: NDArr(list(azi_v)) if a[0] is azi else NDArr(list(zen_v))
+    p123 = [[[fresh_real('g%d%d%d' % (iz, ia, c)) for c in range(3)] for ia in range(NA)] for iz in range(NZ)]
+    h12 = [[fresh_cx('h%d%d' % (iz, ia)) for ia in range(NA)] for iz in range(NZ)]
+    x34 = [[fresh_cx('x%d%d' % (iz, ia)) for ia in range(NA)] for iz in range(NZ)]
+    rat = fresh_real('rat')
+    eng.assume(r_cmp('>', rat, 0))
+    m = SObj('Mininec', label='m')
+    env = {'self': m, 'azimuth_angle': azi, 'zenith_angle': zen, 'p123': NDArr(p123), 'h12': NDArr(h12), 'x34': NDArr(x34), 'rat': rat}
+    eng.inline.add('Far_Field_Pattern.__init__')
+    eng.frames.append({'fref': eng.fref('Mininec.compute_far_field'), 'env': env, 'qual': 'Mininec.compute_far_field', 'node': g})
+    try:
+        eng.exec_stmt(st_grid[0], env)
+        eng.exec_stmt(st_pat[0], env)
+    finally:
+        eng.frames.pop()
+    ffp = m.fields.get('far_field')
+    eng.summaries['format_float'] = K.sum_format_float
+    s = eng.call_qual('Far_Field_Pattern.db_as_mininec', [ffp])
+    from .C15 import lines_of
+    ls = lines_of(s) if isinstance(s, AStr) else []
+    eng.cover('grid-to-rows')
+    eng.oblige(n + 'exactly-N_theta*N_phi-rows', len(ls) == NZ * NA, detail=str(len(ls)))
+    if len(ls) != NZ * NA:
+        return
+    for ia in range(NA):
+        for iz in range(NZ):
+            k = ia * NZ + iz
+            vals = [t[1] if t[0] == 'ff' else t[2] for t in ls[k].toks if t[0] in ('ff', 'conv')]
+            ok = len(vals) == 5
+            eng.oblige(n + 'row-ia*N_theta+iz-carries-zenith-iz-and-azimuth-ia', ok and bterm(b_and(num_eq(vals[0], zen_v[iz]), num_eq(vals[1], azi_v[ia]))))
+            eng.oblige(n + 'and-the-gains-computed-for-that-direction', ok and bterm(b_and(*[num_eq(vals[2 + c], p123[iz][ia][c]) for c in range(3)])))
+
+
+class _GridSwapped(ast.NodeTransformer):
+    """meshgrid (azimuth, zenith) instead of (zenith, azimuth)"""
+
+    def visit_Call(self, node):
+        self.generic_visit(node)
+        if ast.unparse(node.func) == 'np.meshgrid' and len(node.args) == 2 and 'angle_deg' in ast.unparse(node):
+            node.args = [node.args[1], node.args[0]]
+        return node
+
+
+class _GainNotTransposed(ast.NodeTransformer):
+    def visit_Assign(self, node):
+        if isinstance(node.targets[0], ast.Tuple) and ast.unparse(node.value) == 'self.gain.T':
+            node.value = ast.parse('self.gain.reshape (-1, 3).T.reshape (3, *self.zen.shape)').body[0].value
+        return node
+
+
+U_G2R = Unit(P + '/far-field-grid-to-rows', ['Mininec.compute_far_field', 'Far_Field_Pattern.__init__', 'Far_Field_Pattern.db_as_mininec'],
+             t_farfield_grid_to_rows, SCH,
+             slices={'Mininec.compute_far_field': 'the statements `zen_d, azi_d = np.meshgrid (...)` and `self.far_field = Far_Field_Pattern (...)`'},
+             notes='bounded(shape): 2 zenith x 3 azimuth angles; angles and results symbolic',
+             canaries=[Canary('angle-grids-swapped', 'Mininec.compute_far_field', _GridSwapped, [P + '/far-field grid to rows/'])])
+
+UNITS = [U_ANGLE, U_GRID, U_STRUCT, U_FFROWS, U_ORDER, U_G2R]
 
 
 def _num(txt):
